@@ -286,6 +286,13 @@ def correspond(ctx):
             o = np.argsort(xv, kind='mergesort')
             if len(xv) != len(xfit) or not close(np.array(xv)[o], xfit, 1e-12) or not close(np.array(yv)[o], yfit, 1e-12):
                 dis.append(Disagreement('c17.model', 'model:plan', f'custom_bc x_fit/y_fit differ from the Lean section plan for {meta}', meta, False))
+    # object-history fuzzer (hist.py) over the optimizers: on a long-lived fitter, a later optimizer call (another wrapped method, other
+    # options) must return what the same call returns on a fresh fitter — the composition the property states, not a remembered one
+    from . import hist
+    for spec, f in hist.campaign(ctx, ctx.np_rng(), 'fresh', 50 if ctx.thorough else 20, 16 if ctx.thorough else 6,
+                                 pool1=list(hist.WRAPPED[False]), pool2=list(hist.WRAPPED[True])):
+        dis.append(Disagreement('c17.fuzz', f'fuzz:{spec["steps"][-1]["method"]}',
+                                f'history on one fitter: {hist.describe(spec)[:700]} — call {f[0] + 1}: {f[2]}', {'kind': 'fuzz', 'spec': spec}, True))
     return dis
 
 
@@ -646,6 +653,10 @@ def search(ctx, hints, lean_failed):
 def replay(ctx, data):
     from . import methods as M
     r = data['replay']
+    if r.get('kind') == 'fuzz':
+        from . import hist
+        f = [x for x in hist.run(r['spec'], want=('fresh',)) if x[1] == 'fresh']
+        return f'call {f[0][0] + 1}: {f[0][2]}' if f else None
     reg = M.registry(False)
     module = {k: v['module'] for k, v in reg.items()}
     try:
